@@ -397,3 +397,58 @@ Definition host_url (e : henv) : option str :=
   | Some h => Some (url_scheme e ++ [58; 47; 47] ++ h ++ [47])
   | None => None
   end.
+
+(* ---------------------------------------------------------------- urllib.parse.quote, Request.script_url / base_url *)
+(* str.encode('utf-8', 'strict') of one code point (quote(str) encodes first).  None stands for UnicodeEncodeError
+   (a lone surrogate) or a number that is no code point. *)
+Definition utf8 (c : Z) : option (list Z) :=
+  if c <? 0 then None
+  else if c <? 128 then Some [c]
+  else if c <? 2048 then Some [192 + c / 64; 128 + c mod 64]
+  else if (55296 <=? c) && (c <=? 57343) then None
+  else if c <? 65536 then Some [224 + c / 4096; 128 + (c / 64) mod 64; 128 + c mod 64]
+  else if c <? 1114112 then Some [240 + c / 262144; 128 + (c / 4096) mod 64; 128 + (c / 64) mod 64; 128 + c mod 64]
+  else None.
+
+(* _ALWAYS_SAFE (ASCII letters, digits, `_.-~`) plus the default safe='/' *)
+Definition quote_safe (b : Z) : bool :=
+  ((65 <=? b) && (b <=? 90)) || ((97 <=? b) && (b <=? 122)) || ((48 <=? b) && (b <=? 57))
+  || (b =? 95) || (b =? 46) || (b =? 45) || (b =? 126) || (b =? 47).
+
+(* '%{:02X}'.format(b) *)
+Definition hexdigit (d : Z) : Z := if d <? 10 then 48 + d else 55 + d.
+Definition quote_byte (b : Z) : str :=
+  if quote_safe b then [b] else [37; hexdigit ((b / 16) mod 16); hexdigit (b mod 16)].
+
+(* urllib.parse.quote(s) for a str s, default arguments *)
+Fixpoint quote (s : str) : option str :=
+  match s with
+  | [] => Some []
+  | c :: r =>
+      match utf8 c, quote r with
+      | Some bs, Some q => Some (flat_map quote_byte bs ++ q)
+      | _, _ => None
+      end
+  end.
+
+(* s.rstrip('/') *)
+Fixpoint lstrip_c (ch : Z) (s : str) : str :=
+  match s with [] => [] | c :: r => if c =? ch then lstrip_c ch r else s end.
+Definition rstrip_c (ch : Z) (s : str) : str := rev (lstrip_c ch (rev s)).
+
+Definition opt_default (d : str) (o : option str) : str := match o with Some s => s | None => d end.
+
+(* Request.script_url:  self.host_url.rstrip('/') + quote(self.environ.get('SCRIPT_NAME', '/').rstrip('/')) *)
+Definition script_url (e : henv) (script_name : option str) : option str :=
+  match host_url e, quote (rstrip_c 47 (opt_default [47] script_name)) with
+  | Some hu, Some q => Some (rstrip_c 47 hu ++ q)
+  | _, _ => None
+  end.
+
+(* Request.base_url:  escape_html(self.host_url.rstrip('/')) + quote(environ.get('SCRIPT_NAME', '').rstrip('/'))
+                      + quote(environ.get('PATH_INFO', '')) *)
+Definition base_url (e : henv) (script_name path_info : option str) : option str :=
+  match host_url e, quote (rstrip_c 47 (opt_default [] script_name)), quote (opt_default [] path_info) with
+  | Some hu, Some q1, Some q2 => Some (escape_html (rstrip_c 47 hu) ++ q1 ++ q2)
+  | _, _, _ => None
+  end.
